@@ -181,9 +181,23 @@ package fsm
 //@   ensures ctx.index == old(ctx.index) && ctx.leaderIndex == old(ctx.leaderIndex) && ctx.db == old(ctx.db)
 //@   ensures ctx.batch == old(ctx.batch) || fresh(ctx.batch)
 // ghost call log of the context: how many commands were handled through it, and which one last
-//@   ensures err == nil ==> ctx.nhandled == old(ctx.nhandled) + 1 && ctx.lastHandled == c
-//@   ensures err != nil ==> ctx.nhandled >= old(ctx.nhandled)
+//@   ensures [calllog] err == nil ==> ctx.nhandled == old(ctx.nhandled) + 1 && ctx.lastHandled == c
+//@   ensures [calllog] err != nil ==> ctx.nhandled >= old(ctx.nhandled)
 //@   modifies ctx.batch, ctx.batch.vP, ctx.batch.vV, ctx.nhandled, ctx.lastHandled
+
+// each implementation's own contract implies the interface contract above (obligations "refines:..."),
+// taking for granted only that the command decoded from the log carries the payload of its kind
+//@ refines fsm.command.handle by (commandDummy).handle
+//@ refines fsm.command.handle by (commandPut).handle
+//@   assuming asType(c, commandPut).Command != nil && asType(c, commandPut).Command.Kv != nil
+//@ refines fsm.command.handle by (commandTxn).handle
+//@   assuming asType(c, commandTxn).Command != nil && txnWF(asType(c, commandTxn).Command.Txn)
+//@ refines fsm.command.handle by (commandPutBatch).handle
+//@   assuming asType(c, commandPutBatch).Command != nil && forall j int :: 0 <= j && j < len(asType(c, commandPutBatch).Command.Batch) ==> asType(c, commandPutBatch).Command.Batch[j] != nil
+//@ refines fsm.command.handle by (commandDeleteBatch).handle
+//@   assuming asType(c, commandDeleteBatch).Command != nil && forall j int :: 0 <= j && j < len(asType(c, commandDeleteBatch).Command.Batch) ==> asType(c, commandDeleteBatch).Command.Batch[j] != nil
+//@ refines fsm.command.handle by (commandSequence).handle
+//@   assuming asType(c, commandSequence).Command != nil && forall j int :: 0 <= j && j < len(asType(c, commandSequence).Command.Sequence) ==> asType(c, commandSequence).Command.Sequence[j] != nil && 0 <= asType(c, commandSequence).Command.Sequence[j].Type && asType(c, commandSequence).Command.Sequence[j].Type <= 6
 
 //@ ghostfield any.nhandled Int = 0
 //@ ghostfield any.lastHandled Iface
@@ -239,6 +253,24 @@ package fsm
 //@   ensures [C01.handle.book] err == nil ==> bookSame(ctx.batch.vP, ctx.batch.vV, old(ctx.batch.vP), old(ctx.batch.vV))
 //@   ensures [C01.cput.state] err == nil ==> forall k Bytes :: ctx.batch.vP[k] == (k == encK(1, bytesOf(c.Command.Kv.Key)) ? true : old(ctx.batch.vP[k]))
 //@   modifies ctx.batch, ctx.batch.vP, ctx.batch.vV
+
+// DELETE: the command's key, range end and flags reach handleDelete unchanged; one response
+//@ func (commandDelete).handle
+//@   results ur, res, err
+//@   requires c.Command != nil && c.Command.Kv != nil
+//@   requires ctx != nil && ctx.batch != nil && ctx.db != nil && ctx.batch.bdb == ctx.db && ctx.batch != ctx.db
+//@   ensures [C10.handle.rev]  err == nil ==> res != nil && res.Revision == ctx.index && fresh(res)
+//@   ensures [C10.handle.resp] err == nil ==> len(res.Responses) == 1
+//@   ensures err == nil ==> ctx.batch != nil && ctx.batch.bdb == ctx.db && ctx.batch != ctx.db
+//@   ensures ctx.index == old(ctx.index) && ctx.leaderIndex == old(ctx.leaderIndex) && ctx.db == old(ctx.db)
+//@   ensures ctx.batch == old(ctx.batch) || fresh(ctx.batch)
+//@   ensures [C01.handle.book] err == nil ==> bookSame(ctx.batch.vP, ctx.batch.vV, old(ctx.batch.vP), old(ctx.batch.vV))
+//@   ensures [C01.cdel.single] err == nil && isNilSlice(c.Command.RangeEnd) ==> forall k Bytes :: ctx.batch.vP[k] == (k == encK(1, bytesOf(c.Command.Kv.Key)) ? false : old(ctx.batch.vP[k]))
+//@   ensures [C01.cdel.range] err == nil && !isNilSlice(c.Command.RangeEnd) ==> forall k Bytes :: ctx.batch.vP[k] == (inRange(k, encK(1, bytesOf(c.Command.Kv.Key)), (isWildcard(c.Command.RangeEnd) ? Wb() : encK(1, bytesOf(c.Command.RangeEnd)))) ? false : old(ctx.batch.vP[k]))
+//@   ensures [C01.cdel.values] err == nil ==> forall k Bytes :: ctx.batch.vP[k] ==> ctx.batch.vV[k] == old(ctx.batch.vV[k])
+//@   modifies ctx.batch, ctx.batch.vP, ctx.batch.vV
+//@ refines fsm.command.handle by (commandDelete).handle
+//@   assuming asType(c, commandDelete).Command != nil && asType(c, commandDelete).Command.Kv != nil
 
 // ---------------------------------------------------------------- range reads (C09)
 
@@ -846,12 +878,15 @@ package fsm
 //@   requires c.Command != nil && ctx != nil && ctx.batch != nil && ctx.db != nil && ctx.batch.bdb == ctx.db && ctx.batch != ctx.db
 //@   requires forall j int :: 0 <= j && j < len(c.Command.Sequence) ==> c.Command.Sequence[j] != nil && 0 <= c.Command.Sequence[j].Type && c.Command.Sequence[j].Type <= 6
 //@   ensures [C05.seq.all] err == nil ==> ctx.nhandled == old(ctx.nhandled) + len(c.Command.Sequence)
+//@   ensures [C01.handle.book] err == nil ==> bookSame(ctx.batch.vP, ctx.batch.vV, old(ctx.batch.vP), old(ctx.batch.vV))
 //@   ensures [C10.handle.rev] err == nil ==> res != nil && res.Revision == ctx.index && fresh(res)
-//@   ensures ctx.index == old(ctx.index) && ctx.leaderIndex == old(ctx.leaderIndex) && ctx.db == old(ctx.db)
-//@   modifies ctx.batch, family(G_any_vP), family(G_any_vV), ctx.nhandled, ctx.lastHandled
+//@   ensures ctx.index == old(ctx.index) && ctx.leaderIndex == old(ctx.leaderIndex) && ctx.db == old(ctx.db) && (ctx.batch == old(ctx.batch) || fresh(ctx.batch))
+//@   ensures err == nil ==> ctx.batch != nil && ctx.batch.bdb == ctx.db && ctx.batch != ctx.db
+//@   modifies ctx.batch, ctx.batch.vP, ctx.batch.vV, ctx.nhandled, ctx.lastHandled
 //@   loop 0 invariant res != nil && fresh(res) && res.Revision == ctx.index && (isNilSlice(res.Responses) || fresh(res.Responses)) && -1 <= rangeindex && rangeindex < len(c.Command.Sequence)
-//@   loop 0 invariant ctx.batch != nil && ctx.db != nil && ctx.batch.bdb == ctx.db && ctx.batch != ctx.db && ctx.index == old(ctx.index) && ctx.leaderIndex == old(ctx.leaderIndex) && ctx.db == old(ctx.db)
+//@   loop 0 invariant ctx.batch != nil && ctx.db != nil && ctx.batch.bdb == ctx.db && ctx.batch != ctx.db && ctx.index == old(ctx.index) && ctx.leaderIndex == old(ctx.leaderIndex) && ctx.db == old(ctx.db) && (ctx.batch == old(ctx.batch) || fresh(ctx.batch))
 //@   loop 0 invariant ctx.nhandled == old(ctx.nhandled) + rangeindex + 1
+//@   loop 0 invariant [C01.handle.book] bookSame(ctx.batch.vP, ctx.batch.vV, old(ctx.batch.vP), old(ctx.batch.vV))
 //@   loop 0 step [C05.seq.step] ctx.nhandled == prev(ctx.nhandled) + 1 && (c.Command.Sequence[rangeindex+1].Type != 2 ==> cmdPtrOf(ctx.lastHandled) == c.Command.Sequence[rangeindex+1])
 
 // ---------------------------------------------------------------- PUT_BATCH (what a restore proposes: C07, C01)
@@ -864,9 +899,10 @@ package fsm
 //@   requires forall j int :: 0 <= j && j < len(ops) ==> ops[j] != nil && !ops[j].PrevKv
 //@   ensures err == nil ==> len(results) == len(ops) && ctx.batch != nil && ctx.batch.bdb == ctx.db && ctx.batch != ctx.db
 //@   ensures ctx.index == old(ctx.index) && ctx.leaderIndex == old(ctx.leaderIndex) && ctx.db == old(ctx.db) && (ctx.batch == old(ctx.batch) || fresh(ctx.batch))
+//@   ensures err == nil ==> ctx.batch != nil && ctx.batch.bdb == ctx.db && ctx.batch != ctx.db
 //@   ensures [C01.handle.book+C07] err == nil ==> bookSame(ctx.batch.vP, ctx.batch.vV, old(ctx.batch.vP), old(ctx.batch.vV))
 //@   ensures [C07.batch.none] err == nil && len(ops) == 0 ==> ctx.batch.vP == old(ctx.batch.vP) && ctx.batch.vV == old(ctx.batch.vV)
-//@   modifies ctx.batch, family(G_any_vP), family(G_any_vV)
+//@   modifies ctx.batch, ctx.batch.vP, ctx.batch.vV
 //@   loop 0 invariant -1 <= rangeindex && rangeindex < len(ops) && len(results) == len(ops) && fresh(results)
 //@   loop 0 invariant ctx.batch != nil && ctx.db != nil && ctx.batch.bdb == ctx.db && ctx.batch != ctx.db && ctx.index == old(ctx.index) && ctx.leaderIndex == old(ctx.leaderIndex) && ctx.db == old(ctx.db) && (ctx.batch == old(ctx.batch) || fresh(ctx.batch))
 //@   loop 0 invariant bookSame(ctx.batch.vP, ctx.batch.vV, old(ctx.batch.vP), old(ctx.batch.vV))
@@ -882,9 +918,10 @@ package fsm
 //@   requires forall j int :: 0 <= j && j < len(c.Command.Batch) ==> c.Command.Batch[j] != nil
 //@   ensures [C10.handle.rev] err == nil ==> res != nil && res.Revision == ctx.index && fresh(res)
 //@   ensures ctx.index == old(ctx.index) && ctx.leaderIndex == old(ctx.leaderIndex) && ctx.db == old(ctx.db) && (ctx.batch == old(ctx.batch) || fresh(ctx.batch))
+//@   ensures err == nil ==> ctx.batch != nil && ctx.batch.bdb == ctx.db && ctx.batch != ctx.db
 //@   ensures [C01.handle.book+C07] err == nil ==> bookSame(ctx.batch.vP, ctx.batch.vV, old(ctx.batch.vP), old(ctx.batch.vV))
 //@   before handlePutBatch assert [C07.batch.ops] len(ops) == len(c.Command.Batch) && forall j int :: 0 <= j && j < len(ops) ==> ops[j] != nil && !ops[j].PrevKv && sameSlice(ops[j].Key, c.Command.Batch[j].Key) && sameSlice(ops[j].Value, c.Command.Batch[j].Value)
-//@   modifies ctx.batch, family(G_any_vP), family(G_any_vV)
+//@   modifies ctx.batch, ctx.batch.vP, ctx.batch.vV
 //@   loop 0 invariant -1 <= rangeindex && rangeindex < len(c.Command.Batch) && len(req) == len(c.Command.Batch) && fresh(req)
 //@   loop 0 invariant forall j int :: 0 <= j && j <= rangeindex ==> req[j] != nil && !req[j].PrevKv && sameSlice(req[j].Key, c.Command.Batch[j].Key) && sameSlice(req[j].Value, c.Command.Batch[j].Value)
 //@   loop 1 invariant -1 <= rangeindex && rangeindex < len(rop) && (isNilSlice(res) || fresh(res))
@@ -898,8 +935,9 @@ package fsm
 //@   requires forall j int :: 0 <= j && j < len(ops) ==> ops[j] != nil && isNilSlice(ops[j].RangeEnd)
 //@   ensures err == nil ==> len(results) == len(ops) && ctx.batch != nil && ctx.batch.bdb == ctx.db && ctx.batch != ctx.db
 //@   ensures ctx.index == old(ctx.index) && ctx.leaderIndex == old(ctx.leaderIndex) && ctx.db == old(ctx.db) && (ctx.batch == old(ctx.batch) || fresh(ctx.batch))
+//@   ensures err == nil ==> ctx.batch != nil && ctx.batch.bdb == ctx.db && ctx.batch != ctx.db
 //@   ensures [C01.handle.book] err == nil ==> bookSame(ctx.batch.vP, ctx.batch.vV, old(ctx.batch.vP), old(ctx.batch.vV))
-//@   modifies ctx.batch, family(G_any_vP), family(G_any_vV)
+//@   modifies ctx.batch, ctx.batch.vP, ctx.batch.vV
 //@   loop 0 invariant -1 <= rangeindex && rangeindex < len(ops) && len(results) == len(ops) && fresh(results)
 //@   loop 0 invariant ctx.batch != nil && ctx.db != nil && ctx.batch.bdb == ctx.db && ctx.batch != ctx.db && ctx.index == old(ctx.index) && ctx.leaderIndex == old(ctx.leaderIndex) && ctx.db == old(ctx.db) && (ctx.batch == old(ctx.batch) || fresh(ctx.batch))
 //@   loop 0 invariant bookSame(ctx.batch.vP, ctx.batch.vV, old(ctx.batch.vP), old(ctx.batch.vV))
@@ -912,9 +950,10 @@ package fsm
 //@   requires forall j int :: 0 <= j && j < len(c.Command.Batch) ==> c.Command.Batch[j] != nil
 //@   ensures [C10.handle.rev] err == nil ==> res != nil && res.Revision == ctx.index && fresh(res)
 //@   ensures ctx.index == old(ctx.index) && ctx.leaderIndex == old(ctx.leaderIndex) && ctx.db == old(ctx.db) && (ctx.batch == old(ctx.batch) || fresh(ctx.batch))
+//@   ensures err == nil ==> ctx.batch != nil && ctx.batch.bdb == ctx.db && ctx.batch != ctx.db
 //@   ensures [C01.handle.book] err == nil ==> bookSame(ctx.batch.vP, ctx.batch.vV, old(ctx.batch.vP), old(ctx.batch.vV))
 //@   before handleDeleteBatch assert [C01.delbatch.ops] len(ops) == len(c.Command.Batch) && forall j int :: 0 <= j && j < len(ops) ==> ops[j] != nil && isNilSlice(ops[j].RangeEnd) && sameSlice(ops[j].Key, c.Command.Batch[j].Key)
-//@   modifies ctx.batch, family(G_any_vP), family(G_any_vV)
+//@   modifies ctx.batch, ctx.batch.vP, ctx.batch.vV
 //@   loop 0 invariant -1 <= rangeindex && rangeindex < len(c.Command.Batch) && len(req) == len(c.Command.Batch) && fresh(req)
 //@   loop 0 invariant forall j int :: 0 <= j && j <= rangeindex ==> req[j] != nil && isNilSlice(req[j].RangeEnd) && sameSlice(req[j].Key, c.Command.Batch[j].Key)
 //@   loop 1 invariant -1 <= rangeindex && rangeindex < len(rop) && (isNilSlice(res) || fresh(res))
